@@ -599,7 +599,10 @@ class StrategyBase(Node):
         if self._original_children_are_present:
             # if we have universe_tickers defined, limit universe to
             # those tickers
-            valid_filter = list(set(universe.columns).intersection(self._universe_tickers))
+            # (keep the column order of the universe, so that results do not
+            # depend on set iteration order / PYTHONHASHSEED)
+            tickers = set(self._universe_tickers)
+            valid_filter = [c for c in universe.columns if c in tickers]
 
             funiverse = universe[valid_filter].copy()
 
